@@ -125,6 +125,9 @@ class RMAX(Learns):
         
         self.q_matrix = np.ones((self.n_states, self.n_actions)) * self.rmax * 1/(1-mdp.discount_rate)
 
+        self._self_transition_mat = np.zeros_like(self.transitions)
+        self._self_transition_mat[np.arange(self.n_states), :, np.arange(self.n_states)] = 1
+
     def _act(self, state, rng):
         """advance one step during training by picking an action"""
         # Grad random action in case all Q values equal
@@ -167,12 +170,6 @@ class RMAX(Learns):
             if np.all(np.abs(self.q_matrix[mask] - new_q[mask]) < self.bellman_convergence_diff):
                 break
             self.q_matrix[mask] = new_q[mask]
-
-    @cached_property
-    def _self_transition_mat(self):
-        self_transition_mat = np.zeros_like(self.transitions)
-        self_transition_mat[np.arange(self.n_states), :, np.arange(self.n_states)] = 1
-        return self_transition_mat
 
     def _training(
         self,
